@@ -17,6 +17,13 @@
 //     while those classes are in free-list mode; same predicates plus the slot-by-slot structure check, panics
 //     and hangs inside Malloc/Free.  Quick and thorough.  (The -race variant of stream 2 is thorough only.)
 //
+//  3b. mode-edge contention (edge.go): a class is put k slots before the point at which Malloc changes its source
+//     of slots (bump region / free list / fresh page), then 2..16 goroutines released together allocate in it.
+//
+// Nothing waits without a limit: the goroutine phases of streams 2, 3, 3b have a watchdog (a panic inside
+// Malloc/Free leaves the class mutex locked), and supervise() kills the child when the announced case makes no
+// progress within its allowance - both are reported as property failures with the case as replay.
+//
 //  4. the allocator as wired into the node (node.go): the real common.InitConfig(), a real UnspentDB, run-time config
 //     changes through common.Reset(), defrag_utxo ticks; one child process per case; compared with Model/AllocNode.lean.
 //
@@ -931,7 +938,7 @@ func runTrace(tr *Trace, every int) *diff {
 	if every > 1 {
 		tr.Every = every
 	}
-	announce(tr)
+	announceFor(tr, traceLimitS(len(tr.Ops)))
 	if os.Getenv("C20_TIMING") != "" {
 		t0 := time.Now()
 		defer func() { fmt.Fprintf(os.Stderr, "TIMING %-32s ops=%-7d %v\n", tr.Name, len(tr.Ops), time.Since(t0)) }()
@@ -1302,28 +1309,41 @@ type cAlloc struct {
 	tag  int
 }
 
-func runConcurrent(name string, g *vlib.Rng, workers, phases, opsPerPhase int, bs []int, defragClassHint int) {
+// concHangLimit: how long one phase of the concurrent stream may take (normally a few milliseconds; the same
+// body runs under the race detector in race.go, where a phase takes up to a few seconds).
+func concHangLimit() time.Duration {
+	if v, err := strconv.Atoi(os.Getenv("C20_CONC_HANG_S")); err == nil && v > 0 { // self-tests of the watchdog only
+		return time.Duration(v) * time.Second
+	}
+	return 45 * time.Second
+}
+
+func runConcurrentSeed(name string, seed uint64, workers, phases, opsPerPhase int, bs []int, defragClassHint int) {
 	type rec struct {
 		Name                         string
 		Seed                         uint64
 		Workers, Phases, OpsPerPhase int
 		Hint                         int
 	}
-	seed := g.U64()
 	replay := map[string]interface{}{"concurrent": rec{name, seed, workers, phases, opsPerPhase, defragClassHint}}
 	concurrentBody(name, seed, workers, phases, opsPerPhase, bs, defragClassHint, replay)
 }
 
 func concurrentBody(name string, seed uint64, workers, phases, opsPerPhase int, bs []int, hint int, replay interface{}) {
 	announce(replay)
+	if runtime.GOMAXPROCS(0) < 4 {
+		runtime.GOMAXPROCS(4) // a machine with one or two CPUs: let the kernel interleave the goroutines
+	}
 	a := memory.NewAllocator()
 	reg := newRegistry()
 	var fmu sync.Mutex
 	failed := false
+	failCh := make(chan struct{}) // closed by the first failure
 	fail := func(key, what string) {
 		fmu.Lock()
 		if !failed {
 			failed = true
+			close(failCh)
 			r.PropFail(key, fmt.Sprintf("concurrent %q (%d goroutines): %s", name, workers, what), replay)
 		}
 		fmu.Unlock()
@@ -1342,6 +1362,7 @@ func concurrentBody(name string, seed uint64, workers, phases, opsPerPhase int, 
 	}
 	capc := (pgSize - hdrSize) / int(slots[hint])
 	tagCtr := make([]int, workers)
+	stuck := false // goroutines of this case are still blocked inside the allocator: it must not be touched any more
 	for ph := 0; ph < phases && !isFailed(); ph++ {
 		var wg sync.WaitGroup
 		for w := 0; w < workers; w++ {
@@ -1399,8 +1420,24 @@ func concurrentBody(name string, seed uint64, workers, phases, opsPerPhase int, 
 				lives[w] = mine
 			}(w)
 		}
-		wg.Wait()
+		// watchdog: a goroutine that panics inside Malloc/Free leaves the class mutex locked (the allocator
+		// unlocks without defer), and every later call for that class blocks for ever; a lost wake-up or a
+		// lock-order inversion inside the allocator has the same effect.  Never wait without a limit.
+		done := make(chan struct{})
+		go func() { wg.Wait(); close(done) }()
+		select {
+		case <-done:
+		case <-failCh:
+		case <-time.After(concHangLimit()):
+			fail("hang", fmt.Sprintf("phase %d: Malloc/Free did not return within %v (a goroutine spins inside the allocator or waits for a class mutex that is never released)", ph, concHangLimit()))
+		}
 		if isFailed() {
+			select { // the others stop at their next operation - unless they are blocked inside the allocator
+			case <-done:
+			case <-time.After(2 * time.Second):
+				r.Hit("concurrent:goroutines left blocked inside Malloc/Free after the failure")
+				stuck = true
+			}
 			break
 		}
 		// barrier: counters and structure at quiescence
@@ -1512,7 +1549,7 @@ func concurrentBody(name string, seed uint64, workers, phases, opsPerPhase int, 
 		}
 	}
 	_ = capc
-	if !isFailed() {
+	if !isFailed() && !stuck {
 		for w := range lives {
 			for _, x := range lives[w] {
 				if j := checkFill(*x.ptr, x.tag); j >= 0 {
@@ -1565,6 +1602,17 @@ func replayFile(path string, bs []int) {
 		replayChurn(ch.Churn)
 		return
 	}
+	var ec struct {
+		Edge edgeCase `json:"edge"`
+	}
+	if json.Unmarshal(doc.Replay, &ec) == nil && ec.Edge.Workers > 0 && ec.Edge.Rounds > 0 {
+		if ec.Edge.Class < 0 || ec.Edge.Class >= len(slots) {
+			fmt.Println("bad replay file: class out of range")
+			os.Exit(3)
+		}
+		replayEdge(ec.Edge)
+		return
+	}
 	var nc struct {
 		Node nodeCase `json:"node"`
 	}
@@ -1582,7 +1630,14 @@ func replayFile(path string, bs []int) {
 	}
 	if json.Unmarshal(doc.Replay, &cc) == nil && cc.Concurrent.Workers > 0 {
 		c := cc.Concurrent
-		concurrentBody(c.Name, c.Seed, c.Workers, c.Phases, c.OpsPerPhase, bs, c.Hint, doc.Replay)
+		// the interleaving is the machine's: repeat until the case fails (at most 20 times)
+		for i := 0; i < 20; i++ {
+			concurrentBody(c.Name, c.Seed, c.Workers, c.Phases, c.OpsPerPhase, bs, c.Hint, doc.Replay)
+			if r.Violations() > 0 {
+				return
+			}
+		}
+		fmt.Println("concurrent case did not fail in 20 repetitions (the failure depends on the interleaving)")
 		return
 	}
 	fmt.Println("replay file holds no trace (a broken proof obligation has no input to replay); re-run ./check C20 quick")
@@ -1590,12 +1645,29 @@ func replayFile(path string, bs []int) {
 
 // announce writes the case that is about to run, so that the supervising parent can name it when the
 // allocator brings the process down (a fault inside a goroutine started by the library is fatal).
-func announce(doc interface{}) {
+func announce(doc interface{}) { announceFor(doc, 0) }
+
+// announceFor: as announce, and tells the supervisor how many seconds this case may take before the child is
+// declared hung (0 = the default, superviseStallS).  The limit is written first, the case second: the
+// supervisor restarts its clock when the case file changes.
+func announceFor(doc interface{}, limitS int) {
 	if f := os.Getenv("C20_CURFILE"); f != "" {
 		b, _ := json.Marshal(doc)
-		os.WriteFile(f, b, 0644)
+		os.WriteFile(f+".limit", []byte(strconv.Itoa(limitS)), 0644)
+		tmp := f + ".tmp"
+		os.WriteFile(tmp, b, 0644)
+		os.Rename(tmp, f) // atomic: the supervisor never reads half a case
 	}
 }
+
+const (
+	superviseStallS = 240  // default time one announced case may take (streams with their own watchdog: node 180 s)
+	superviseTotalS = 7200 // whatever is announced, the child never lives longer than this
+)
+
+// traceLimitS: wall-clock allowance of one single-threaded trace (a quick trace takes well under a second, the
+// 3.5e5-op small-class trace of the thorough tier about a minute on a loaded machine).
+func traceLimitS(ops int) int { return 30 + ops/500 }
 
 // supervise re-executes this binary as a child doing the real work. Exit 0/1 of the child is passed on;
 // anything else (fatal fault, runtime abort) is reported as a property failure on the announced case.
@@ -1611,7 +1683,63 @@ func supervise() {
 	cmd.Stdout = os.Stdout
 	var errb bytes.Buffer
 	cmd.Stderr = &errb
-	runErr := cmd.Run()
+	// watchdog: the child announces every case before running it; when no new case has been announced for
+	// longer than the running case's allowance the child is killed and the announced case is reported as a
+	// hang (a deadlock inside the allocator blocks the calling goroutine for ever - in the node that is the
+	// block-processing thread).  A check must never wait without a limit.
+	if err := cmd.Start(); err != nil {
+		fmt.Println("cannot start the harness child:", err)
+		os.RemoveAll(dir)
+		os.Exit(3)
+	}
+	waitCh := make(chan error, 1)
+	go func() { waitCh <- cmd.Wait() }()
+	var runErr error
+	hung, hungAfter := false, 0.0
+	{
+		stallS := func() float64 {
+			if v, err := strconv.Atoi(os.Getenv("C20_STALL_S")); err == nil && v > 0 { // self-tests of the watchdog only
+				return float64(v)
+			}
+			if lb, err := os.ReadFile(cur + ".limit"); err == nil {
+				if v, err := strconv.Atoi(strings.TrimSpace(string(lb))); err == nil && v > 0 {
+					return float64(v)
+				}
+			}
+			return superviseStallS
+		}
+		start, last := time.Now(), time.Now()
+		var lastMod time.Time
+		tick := time.NewTicker(250 * time.Millisecond)
+	loop:
+		for {
+			select {
+			case runErr = <-waitCh:
+				break loop
+			case <-tick.C:
+				if st, err := os.Stat(cur); err == nil && !st.ModTime().Equal(lastMod) {
+					lastMod, last = st.ModTime(), time.Now()
+				}
+				if time.Since(last).Seconds() > stallS() || time.Since(start).Seconds() > superviseTotalS {
+					hung, hungAfter = true, time.Since(last).Seconds()
+					cmd.Process.Kill()
+					runErr = <-waitCh
+					break loop
+				}
+			}
+		}
+		tick.Stop()
+	}
+	if hung {
+		b, _ := os.ReadFile(cur)
+		os.RemoveAll(dir)
+		var doc interface{}
+		dec := json.NewDecoder(bytes.NewReader(b))
+		dec.UseNumber()
+		dec.Decode(&doc)
+		r.PropFail("hang", fmt.Sprintf("the recorded case did not finish: no progress for %.0f s (Malloc / Free / DefragAllImproved did not return: a goroutine waits for a class mutex that is never released, or spins inside the allocator); the harness child was killed", hungAfter), doc)
+		r.Finish("the run was aborted because the real allocator did not return", "supervisor report: the child process running the traces hung")
+	}
 	code := 0
 	if runErr != nil {
 		code = -1
@@ -1789,16 +1917,27 @@ func main() {
 	}
 
 	// 5. concurrent stream: 2..16 goroutines
+	nv0 := r.Violations()
 	for _, w := range []int{2, 3, 4, 8, 16} {
 		for k := 0; k < r.N(2, 8) && (only == "" || only == "conc"); k++ {
 			hint := len(slots) - 1 - g.Intn(10)
-			runConcurrent(fmt.Sprintf("conc-w%d-%d", w, k), g, w, 4, r.N(400, 2500), bs, hint)
+			seedK := g.U64()
+			if r.Violations() > nv0 {
+				continue // one concrete failing case is enough (its goroutines may still hold a class mutex); the PRNG stream stays the same
+			}
+			runConcurrentSeed(fmt.Sprintf("conc-w%d-%d", w, k), seedK, w, 4, r.N(400, 2500), bs, hint)
 		}
 	}
 
 	// 5b. steady-state churn: 2..4 goroutines sharing one to three size classes in free-list mode (churn.go)
 	if only == "" || only == "churn" {
 		runChurnStream(g, r.N(12, 48))
+	}
+
+	// 5b'. mode-edge contention: goroutines released together k slots before a class changes its source of
+	// slots (bump region -> free list -> fresh page) (edge.go)
+	if only == "" || only == "edge" {
+		runEdgeStream(vlib.NewRng(r.Seed*0x9E3779B97F4A7C15+0xED6E), r.N(20, 80)) // own PRNG stream: the cases of the other streams stay what they were
 	}
 
 	// 5c. the allocator as wired into the node: InitConfig, UTXO commits, run-time config changes, defrag_utxo (node.go)
@@ -1823,6 +1962,6 @@ func main() {
 		"node wiring: which functions write common.Memory / utxo.Memory_Malloc / utxo.Memory_Free and from where they are reachable is a regenerated source fact (gen_c20/wire.go, syntactic mention graph over client/ and lib/utxo/); the TextUI / WebUI config handlers are mirrored by the harness (copy CFG + fragment + Reset, save + load + Reset, whole JSON + Reset), not called",
 		"sort.Slice is not stable: the model takes the evacuation order observed on the real allocator and checks it against the selection rule (sorted by used, stop when recordsToFree >= target); theorems hold for every legal order",
 	}
-	r.Finish("corpus: every size-class boundary (slot-1, slot, slot+1 for all classes of the generated table), the private-mapping boundaries and 200 KiB; page-edge traces; random mixed traces; single-class traces; defragmentation scenarios at 5 fragmentation patterns (uniform, whole pages emptied, equal use on every page, at the 12-page threshold, everything freed) each followed by an aftermath and a second pass; 2..16-goroutine phases with barrier checks and defrag; steady-state churn cases (2..4 goroutines sharing 1..3 size classes in free-list mode, the classes walking a permutation of all dense small classes); node lives (InitConfig in allocator or Go-heap mode, raw Malloc/Free, UTXO blocks with partial and full spends, large-class waves, config changes of 27 settings in three forms with Memory.UseGoHeap flipped at least once, defrag_utxo ticks). distinct = distinct traces (name, length, middle op); every trace reaches Malloc and Free on the real allocator",
+	r.Finish("corpus: every size-class boundary (slot-1, slot, slot+1 for all classes of the generated table), the private-mapping boundaries and 200 KiB; page-edge traces; random mixed traces; single-class traces; defragmentation scenarios at 5 fragmentation patterns (uniform, whole pages emptied, equal use on every page, at the 12-page threshold, everything freed) each followed by an aftermath and a second pass; 2..16-goroutine phases with barrier checks and defrag; steady-state churn cases (2..4 goroutines sharing 1..3 size classes in free-list mode, the classes walking a permutation of all dense small classes); mode-edge contention cases (2..16 goroutines released together in one class that was put k slots before the end of its bump region / of its free list / dry, 10..17 rounds each); node lives (InitConfig in allocator or Go-heap mode, raw Malloc/Free, UTXO blocks with partial and full spends, large-class waves, config changes of 27 settings in three forms with Memory.UseGoHeap flipped at least once, defrag_utxo ticks). distinct = distinct traces (name, length, middle op); every trace reaches Malloc and Free on the real allocator",
 		"single-threaded traces are compared step by step with the Lean model (address, Len/Cap, counters, complete per-class state incl. free-list order, every link field of the pointer layer, relocate sequence); independently of the model the property predicate is evaluated on the real allocator: fill pattern on free/relocate/end, overlap registry over all live slot ranges, Len/Cap/Data, Allocs = live, slot-by-slot 'live xor on free list', relocate exactly once")
 }
